@@ -203,7 +203,7 @@ Definition gen_ack (j : rjournal) (now pn largest rt cap : Z) : ga_res :=
         let ranges :=
           if last then
             let size := rc_incr (Z.of_nat (length R)) + varint_size (gap - 1) + varint_size (ack - 1) in
-            if size <? cap2 then R ++ [(gap - 1, ack - 1)] else R
+            if size <=? cap2 then R ++ [(gap - 1, ack - 1)] else R      (* `capacity >= size` (fix F30) *)
           else R in
         let earliest' :=
           match r_earliest j with
